@@ -18,6 +18,12 @@ CLAIMS = {
          "unbounded): K never decreases, output <= reserve, share bound, mint-then-burn lemma, minimum liquidity bound. Partial: order-book fills "
          "(calculate*WithOrders) and the transaction-level crediting of the locked minimum liquidity are not under contract; see evidence 'uncovered'.",
          "contract-based deductive verification: WP/VC generation over go/ssa + SMT (z3/cvc5)", "DESIGN.md §5 C13"),
+ "C09": ("proof",
+         "Representation invariant of the app database cache, proved for every listed AppDB method over a ghost disk (tm-db Get/Set assumed as a read-your-writes map): "
+         "emission and last height are either unset, marked dirty, or decode from what is on disk; setters mark their record dirty (emission, versions, price), Save* "
+         "write what is dirty and clear the flag, getters return the cache or the decoded disk value. Partial: the state-tree modules' caches (order-book lists, "
+         "candidates, coins dirty sets), Blockchain.Commit's call sequence and JSON/RLP codecs (assumed functions) are not under contract.",
+         "contract-based deductive verification: WP/VC generation over go/ssa + SMT (z3/cvc5), ghost disk", "DESIGN.md §5 C09"),
  "C12": ("proof",
          "The four formula.Calculate* functions are proved against spec functions for all supplies, reserves, ratios and amounts: zero amount, crr==100 integer path "
          "(floor division), sell-all returns exactly the reserve, results non-negative and bounded by reserve/supply; on the float path the computed value equals "
